@@ -284,6 +284,7 @@ func runC13World(w *World, tier string, spec *crashSpec, out *c13Run) (bool, int
 	if !w.Failed() {
 		done = c.AllInState(round, StIdle, members) && len(c.Tr.Order) > 0 && c.Tr.AllHaveBatch(c.Tr.LastBatch(), members)
 		so.checkStores(round, members)
+		checkNoDuplicateStoreEntries(w, "C13", round, members)
 	}
 	if out != nil {
 		out.completed = done
@@ -313,6 +314,31 @@ func runC13World(w *World, tier string, spec *crashSpec, out *c13Run) (bool, int
 		}
 	}
 	return done, map[string]interface{}{"n": n, "t": t, "victim": victim, "windows": out.windows, "steps": w.Steps}
+}
+
+// checkNoDuplicateStoreEntries: "every board message exactly once in effect" -
+// a signature broadcast handled again after a restart (or posted again by a
+// peer that died between posting and saving) must not leave a second entry of
+// the same participant for the same message in the signature store.
+func checkNoDuplicateStoreEntries(w *World, prop, round string, members []int) {
+	for _, i := range members {
+		n := w.Nodes[i]
+		sigs := n.Signatures(round)
+		for _, bid := range sortedKeys(sigs) {
+			for _, mid := range sortedKeys(sigs[bid]) {
+				seen := map[string]int{}
+				for _, e := range sigs[bid][mid] {
+					seen[e.Username]++
+				}
+				for u, k := range seen {
+					if k > 1 {
+						w.Fail(prop, "signature-broadcast-applied-twice", fmt.Sprintf("store of %s: message %q of batch %s has %d entries by participant %s", n.Name, mid, bid, k, u))
+						return
+					}
+				}
+			}
+		}
+	}
 }
 
 func pendingTypes(w *World) []string {
